@@ -185,6 +185,11 @@ func TestC20NamingS3(t *testing.T) {
 	seen := map[string]string{}
 	rt.Check(t, rt.N(80, 600), func(t *rapid.T) {
 		kind, hash, data, mode, prefix := drawTuple(t)
+		// 2.x joins prefix and key with path.Join, so prefixes that are not in
+		// clean form name the same objects as their cleaned form.
+		if rapid.IntRange(0, 2).Draw(t, "uncleanPrefix") == 0 {
+			prefix = rapid.SampledFrom([]string{"team-cache/", "builds//ci", "./rel", "a/./b", "x/"}).Draw(t, "uncleanPrefixVal")
+		}
 		backend := s3mem.New()
 		if err := backend.CreateBucket("bkt"); err != nil {
 			t.Fatal(err)
